@@ -2,6 +2,7 @@ package main
 
 import (
 	"fmt"
+	"go/token"
 	"go/types"
 	"sort"
 	"strings"
@@ -419,11 +420,48 @@ func c15Kqueue(a *An) {
 		return
 	}
 	tr := trs[0]
+	want := mk(ntBy, map[string]string{"NOTE_DELETE": "Remove", "NOTE_WRITE": "Write", "NOTE_RENAME": "Rename", "NOTE_ATTRIB": "Chmod"}, opBy, a, "kqueue translate")
+	// `op |= K under bit(a) ∧ ¬bit(b)` is `op |= K under bit(a)` followed by `op &^= K under bit(a) ∧ bit(b)`: split such a
+	// row so that the one permitted clearing effect is judged in either spelling
+	nClear := 0
+	var rows2 []Row
+	for _, r := range tr.rows {
+		split := false
+		if r.Kind == "or" && len(r.Cond) == 1 {
+			var pos, negs []Lit
+			other := false
+			for _, l := range r.Cond[0] {
+				switch {
+				case l.A.Kind == AkBit && !l.Neg:
+					pos = append(pos, l)
+				case l.A.Kind == AkBit && l.Neg:
+					negs = append(negs, l)
+				default:
+					other = true
+				}
+			}
+			if !other && len(pos) == 1 && len(negs) >= 1 {
+				split = true
+				p := pos[0]
+				rows2 = append(rows2, Row{K: r.K, Kind: "or", Cond: DNF{Conj{p.A.ID(): p}}, Pos: r.Pos, In: r.In})
+				var nb uint64
+				for _, l := range negs {
+					nb |= l.A.Bits
+				}
+				nClear++
+				if !(r.K == opBy["Write"] && want[p.A.Bits] == opBy["Write"] && want[nb] == opBy["Remove"]) {
+					tr.probs = append(tr.probs, sprintf("%s is withheld under %s: not 'drop Write iff Remove is present'", maskName(opN)(r.K), stripIDs(r.Cond.String())))
+				}
+			}
+		}
+		if !split {
+			rows2 = append(rows2, r)
+		}
+	}
+	tr.rows = rows2
 	if len(tr.probs) == 0 {
 		tr.table, tr.spec, tr.probs = buildTable(tr.rows, paramSubject(tr.fn))
 	}
-	want := mk(ntBy, map[string]string{"NOTE_DELETE": "Remove", "NOTE_WRITE": "Write", "NOTE_RENAME": "Rename", "NOTE_ATTRIB": "Chmod"}, opBy, a, "kqueue translate")
-	nClear := 0
 	tableOb(a, "C15.kqueue", "translate("+shortFn(tr.fn)+")", "kqueue fflags -> Op: exactly the documented table", tr, want, maskName(ntN), maskName(opN),
 		func(r Row) (bool, string) {
 			if r.Kind != "clear" {
@@ -653,6 +691,136 @@ func c15Windows(a *An) {
 
 // ---------------------------------------------------------------------------
 
+// foldConstArrayTests: `for _, k := range [...]T{K1, K2, ...} { if x&k != 0 { ... } }` tests x against some element of a
+// local array of constants; over all iterations that is "x has any of K1|K2|...". The iteration literals are dropped.
+func foldConstArrayTests(d DNF) DNF {
+	var out DNF
+	for _, c := range d {
+		nc := Conj{}
+		folded := false
+		for id, l := range c {
+			if l.A.Kind == AkCmp && l.Neg && l.A.Op == "==" && l.A.K == "c:0" {
+				if b, ok := l.A.V.(*ssa.BinOp); ok {
+					if and, ok := stripConv(b.X).(*ssa.BinOp); ok && and.Op == token.AND {
+						for _, pair := range [][2]ssa.Value{{and.X, and.Y}, {and.Y, and.X}} {
+							ev := pair[0]
+							if l.A.Ctx != nil {
+								ev, _ = l.A.Ctx.resolve(ev)
+							}
+							if ks, ok := localConstArrayElem(ev); ok {
+								var bits uint64
+								for _, k := range ks {
+									bits |= k
+								}
+								at := &Atom{Kind: AkAny, Subj: l.A.Ctx.path(pair[1]), Bits: bits, V: l.A.V, Ctx: l.A.Ctx}
+								if popcount(bits) == 1 {
+									at.Kind = AkBit
+								}
+								nc[at.ID()] = Lit{A: at}
+								folded = true
+							}
+						}
+						if folded {
+							continue
+						}
+					}
+				}
+			}
+			nc[id] = l
+		}
+		if folded {
+			for id, l := range nc {
+				if l.A.Kind == AkCmp && strings.Contains(l.A.Subj, "rangeindex") {
+					delete(nc, id)
+				}
+			}
+		}
+		out = append(out, nc)
+	}
+	return out
+}
+
+// localConstArrayElem: v loads an element (at a non-constant index) of a local array all of whose elements are stored
+// once, with integer constants; returns those constants.
+func localConstArrayElem(v ssa.Value) ([]uint64, bool) {
+	var al *ssa.Alloc
+	switch x := stripConv(v).(type) {
+	case *ssa.UnOp: // *(&arr[i])
+		if x.Op != token.MUL {
+			return nil, false
+		}
+		ia, ok := x.X.(*ssa.IndexAddr)
+		if !ok {
+			return nil, false
+		}
+		al, _ = ia.X.(*ssa.Alloc)
+	case *ssa.Index: // (*arr)[i]: ranging over an array value copies it first
+		if ld, ok := x.X.(*ssa.UnOp); ok && ld.Op == token.MUL {
+			al, _ = ld.X.(*ssa.Alloc)
+		}
+	}
+	if al == nil {
+		return nil, false
+	}
+	arr, ok := deref(al.Type()).Underlying().(*types.Array)
+	if !ok {
+		return nil, false
+	}
+	vals := map[int64]uint64{}
+	refs := al.Referrers()
+	if refs == nil {
+		return nil, false
+	}
+	for _, r := range *refs {
+		switch x := r.(type) {
+		case *ssa.IndexAddr:
+			rr := x.Referrers()
+			if rr == nil {
+				continue
+			}
+			for _, u := range *rr {
+				switch y := u.(type) {
+				case *ssa.Store:
+					idx, ok1 := constUint(x.Index)
+					k, ok2 := constUint(y.Val)
+					if !ok1 || !ok2 || y.Addr != ssa.Value(x) {
+						return nil, false
+					}
+					if _, dup := vals[int64(idx)]; dup {
+						return nil, false
+					}
+					vals[int64(idx)] = k
+				case *ssa.UnOp, *ssa.DebugRef:
+				default:
+					return nil, false
+				}
+			}
+		case *ssa.DebugRef:
+		case *ssa.UnOp:
+			// a copy of the whole array: fine when the copy is only indexed
+			if ur := x.Referrers(); ur != nil {
+				for _, u := range *ur {
+					switch u.(type) {
+					case *ssa.Index, *ssa.DebugRef:
+					default:
+						return nil, false
+					}
+				}
+			}
+		default:
+			return nil, false // the array is sliced or passed on
+		}
+	}
+	if int64(len(vals)) != arr.Len() {
+		return nil, false
+	}
+	var out []uint64
+	for _, k := range vals {
+		out = append(out, k)
+	}
+	return out, true
+}
+
 // actionMapLookup: v is `m[param]` for an immutable constant package-level map m and the function's own parameter.
 func actionMapLookup(a *An, fn *ssa.Function, v ssa.Value) (map[string]*ssa.Const, bool) {
 	lk, ok := stripConv(v).(*ssa.Lookup)
@@ -713,6 +881,7 @@ func c15Supports(a *An, inotify bool) {
 			sprintf("true under %s; false under %s", stripIDs(trueCond.String()), stripIDs(falseCond.String())))
 		return
 	}
+	falseCond = foldConstArrayTests(falseCond)
 	_, bits, prob := guardBits(falseCond, func(s string) bool { return s == "p:op" || strings.HasPrefix(s, "p:") })
 	ok := prob == "" && bits == unport
 	wit := sprintf("false iff any of %s", maskName(opN)(bits))
